@@ -201,7 +201,7 @@ def correspond(ctx, corr, model_ok):
 REQT = ('RequestResponse', 'RequestStream', 'RequestChannel', 'RequestFnf')
 
 
-def dup_scenario(first, second, role, lenreq):
+def dup_scenario(first, second, role, lenreq, fragmented=False):
     """peer opens stream s with `first`, then sends `second` on the same id; afterwards the original stream is used"""
     import random
     from harness.ep_scenarios import Scenario
@@ -222,11 +222,19 @@ def dup_scenario(first, second, role, lenreq):
         sc._inject(fr(first, b'first'), out[first])
         n0 = len(sc.rec.log)
         objs0 = len(sc.rec.objs)
-        sc._inject(fr(second, b'second'), out[second])
+        if fragmented:
+            # the re-using request arrives in two fragments: its head (FOLLOWS set) and a PAYLOAD continuation
+            head = dict(fr(second, b'second-head'), follows=True)
+            sc._inject(head, out[second])
+            sc._inject({'t': 'Payload', 'sid': sid, 'ign': False, 'follows': False, 'complete': False, 'next': True,
+                        'md': b'', 'd': b'-tail'}, out[second])
+        else:
+            sc._inject(fr(second, b'second'), out[second])
         after = sc.rec.log[n0:]
         res = {'handler_called_again': any(x[0] == 'eff' and x[1] == 'handler' for x in after),
                'new_object': len(sc.rec.objs) > objs0,
                'answers': [x[2] for x in after if x[0] == 'eff' and x[1] == 'enq'],
+               'signals_to_first': [x for x in after if x[0] == 'eff' and x[1] in ('cb', 'fut', 'pub')],
                'first_registered': first != 'RequestFnf'}
         # the original stream still belongs to the first handler object
         if first != 'RequestFnf':
@@ -243,7 +251,8 @@ def dup_oracle(first, second, res):
         return None          # fire-and-forget registers nothing: the id is free again
     a = res['answers']
     ok = (len(a) == 1 and a[0]['t'] == 'Error' and a[0]['sid'] != 0 and a[0]['code'] == 0x202
-          and not res['handler_called_again'] and not res['new_object'] and res.get('still_first'))
+          and not res['handler_called_again'] and not res['new_object'] and res.get('still_first')
+          and not res.get('signals_to_first'))
     return None if ok else 'request on an id in use not rejected: %r' % (res,)
 
 
@@ -260,6 +269,13 @@ def _dups(corr, model_ok):
                 if o:
                     corr.oracle_failures.append({'what': o, 'dup': [first, second, role, first == second]})
                 runs.append(sc)
+                sc2, res2 = dup_scenario(first, second, role, first != second, fragmented=True)
+                o2 = dup_oracle(first, second, res2)
+                corr.evaluations += 1
+                corr.count('duplicate-id, re-using request fragmented')
+                if o2:
+                    corr.oracle_failures.append({'what': 'fragmented ' + o2, 'dup': [first, second, role, first != second, True]})
+                runs.append(sc2)
     if model_ok:
         E.trace_corr(corr, runs, 'keep_all', True, 'duplicate stream id: endpoint vs model/Endpoint.v')
 
@@ -298,6 +314,13 @@ def run_endpoint_ids(role, m, script):
         for step in script:
             seen = len(t.sent)
             active = sorted(ep._stream_control._streams)
+            if step == 'sweep':
+                # the public stop_all_streams() on a live connection: local streams are failed, the PEER still has them, the
+                # numbering goes on
+                loop.run(lambda: ep.stop_all_streams())
+                loop.settle()
+                out.append(('sweep', None, []))
+                continue
             if isinstance(step, tuple):
                 if step[1] < len(opened):
                     kind, sid = opened[step[1]]
@@ -317,6 +340,7 @@ def run_endpoint_ids(role, m, script):
                     loop.run(lambda: ep.fire_and_forget(Payload(b'x')))
             except Exception:
                 refused += 1
+                out.append(('refused', None, []))
                 continue
             loop.settle()
             new = [sim.parse_sent(b) for b in t.sent[seen:]]
@@ -330,6 +354,33 @@ def run_endpoint_ids(role, m, script):
         loop.finish()
 
 
+def _ids_problem(res, role, m):
+    par = 1 if role == 'client' else 0
+    prev = None
+    mask = (1 << m) - 1
+    for kind, sid, active in res:
+        if kind == 'sweep':
+            continue
+        if kind == 'refused':
+            prev = None          # a failed allocation moves the allocator on by an amount this oracle does not track
+            continue
+        if prev is not None:
+            # advance by 2 from the previous id, wrapping, skipping 0 and ids still in use
+            c = prev
+            for _ in range(mask + 2):
+                c = (c + 2) & mask
+                if c != 0 and c not in active:
+                    break
+            if sid != c and sid not in active:
+                return '%s went out on id %d, the id after %d (active %s, %d-bit space) is %d' % (kind, sid, prev, active, m, c)
+        prev = sid
+        if sid in active:
+            return '%s went out on id %d while that id was active (%s)' % (kind, sid, active)
+        if sid == 0 or sid % 2 != par or sid > mask:
+            return '%s went out on id %d (role %s, %d-bit id space)' % (kind, sid, role, m)
+    return None
+
+
 def endpoint_ids_oracle(rng, n):
     fails = []
     for _ in range(n):
@@ -338,17 +389,10 @@ def endpoint_ids_oracle(rng, n):
         script = []
         for _ in range(rng.randint(6, 40)):
             r = rng.random()
-            script.append(('end', rng.randrange(0, 12)) if r < 0.25 else rng.choice(['rr', 'rs', 'rc', 'fnf', 'fnf', 'fnf']))
+            script.append(('end', rng.randrange(0, 12)) if r < 0.25 else 'sweep' if r < 0.31 else
+                          rng.choice(['rr', 'rs', 'rc', 'fnf', 'fnf', 'fnf']))
         res, refused = run_endpoint_ids(role, m, script)
-        par = 1 if role == 'client' else 0
-        why = None
-        for kind, sid, active in res:
-            if sid in active:
-                why = '%s went out on id %d while that id was active (%s)' % (kind, sid, active)
-            elif sid == 0 or sid % 2 != par or sid > (1 << m) - 1:
-                why = '%s went out on id %d (role %s, %d-bit id space)' % (kind, sid, role, m)
-            if why:
-                break
+        why = _ids_problem(res, role, m)
         if why:
             fails.append({'what': 'endpoint request ids: ' + why, 'endpoint_ids_case': [role, m, script]})
     return fails
@@ -400,10 +444,10 @@ def replay(obj):
         script = [tuple(x) if isinstance(x, list) else x for x in script]
         res, _ = run_endpoint_ids(role, m, script)
         par = 1 if role == 'client' else 0
-        return any(sid in active or sid == 0 or sid % 2 != par or sid > (1 << m) - 1 for _, sid, active in res)
+        return bool(_ids_problem(res, role, m))
     if 'dup' in obj['case']:
-        first, second, role, lenreq = obj['case']['dup']
-        _, res = dup_scenario(first, second, role, lenreq)
+        first, second, role, lenreq = obj['case']['dup'][:4]
+        _, res = dup_scenario(first, second, role, lenreq, fragmented=len(obj['case']['dup']) > 4)
         return bool(dup_oracle(first, second, res))
     case = obj['case']['input']
     case['ops'] = [tuple(o) for o in case['ops']]
